@@ -44,6 +44,11 @@ type Case struct {
 	Accept  int    `json:"accept,omitempty"`  // ... after this many body bytes
 	Router2 string `json:"router2,omitempty"` // router of provider 1 (a second instance in the same process with its own storage)
 	More    []Flow `json:"more,omitempty"`
+
+	// custom op.Server variants (routers "custom" / "custom-bare", see server_test.go)
+	PushOrder string  `json:"push_order,omitempty"` // "after" | "before": deposit applied after / before the embedded LegacyServer's verification
+	PushMerge string  `json:"push_merge,omitempty"` // "replace" | "overlay"
+	Pushed    *Pushed `json:"pushed,omitempty"`     // flow 0 presents a request_uri; this is what was deposited under it
 }
 
 // Flow is one authorization flow (authorize -> login -> callback) of a sequence. Client is the registration in force for
@@ -66,11 +71,12 @@ type Flow struct {
 	FaultKind    string          `json:"fault_kind,omitempty"`
 	Break        string          `json:"break,omitempty"`
 	Accept       int             `json:"accept,omitempty"`
+	Pushed       *Pushed         `json:"pushed,omitempty"`
 }
 
 func (c Case) flows() []Flow {
 	f0 := Flow{Client: c.Client, Requested: c.Requested, OmitURI: c.OmitURI, ResponseType: c.ResponseType, ResponseMode: c.ResponseMode, State: c.State,
-		ErrPath: c.ErrPath, ObjectURI: c.ObjectURI, Relation: c.Relation, FaultKind: c.FaultKind, Break: c.Break, Accept: c.Accept}
+		ErrPath: c.ErrPath, ObjectURI: c.ObjectURI, Relation: c.Relation, FaultKind: c.FaultKind, Break: c.Break, Accept: c.Accept, Pushed: c.Pushed}
 	return append([]Flow{f0}, c.More...)
 }
 
@@ -383,7 +389,16 @@ func genBreak(t *rapid.T) (string, int) {
 
 func genCase(t *rapid.T) Case {
 	var c Case
-	c.Router = rapid.SampledFrom([]string{"provider", "legacy"}).Draw(t, "router")
+	c.Router = rapid.SampledFrom(routers).Draw(t, "router")
+	pushCfg := func() {
+		if c.PushOrder == "" {
+			c.PushOrder = rapid.SampledFrom([]string{"after", "before"}).Draw(t, "pushorder")
+			c.PushMerge = rapid.SampledFrom([]string{"replace", "overlay"}).Draw(t, "pushmerge")
+		}
+	}
+	if isCustom(c.Router) {
+		pushCfg()
+	}
 	c.Client = genClient(t, "client-a")
 	cl := &c.Client
 	nMore := 0
@@ -408,6 +423,13 @@ func genCase(t *rapid.T) Case {
 	}
 	if rapid.Bool().Draw(t, "errstyled") {
 		c.ErrStyle = rapid.SampledFrom(vkit.ErrStyles).Draw(t, "errstyle")
+	}
+	if isCustom(c.Router) && rapid.IntRange(0, 3).Draw(t, "pushed") > 0 {
+		c.Pushed = genPushed(t, cl)
+		genFront(t, cl, &c.Requested, &c.Relation, &c.OmitURI)
+		if strings.HasPrefix(c.ErrPath, "reqobj") || rapid.Bool().Draw(t, "pushnoerr") {
+			c.ErrPath = "none" // request and request_uri are not used together (OIDC Core 6)
+		}
 	}
 	if strings.HasPrefix(c.ErrPath, "store_") {
 		c.FaultKind = rapid.SampledFrom([]string{"", "deadline", "oidc", "oidc-wrapped"}).Draw(t, "faultkind")
@@ -442,8 +464,15 @@ func genCase(t *rapid.T) Case {
 		if rapid.IntRange(0, 4).Draw(t, "prov2") == 0 {
 			f.Prov = 1
 			if c.Router2 == "" {
-				c.Router2 = rapid.SampledFrom([]string{"provider", "legacy"}).Draw(t, "router2")
+				c.Router2 = rapid.SampledFrom(routers).Draw(t, "router2")
+				if isCustom(c.Router2) {
+					pushCfg()
+				}
 			}
+		}
+		custom := isCustom(c.Router)
+		if f.Prov == 1 {
+			custom = isCustom(c.Router2)
 		}
 		id := rapid.SampledFrom([]string{"client-a", "client-a", "client-c"}).Draw(t, "clientid")
 		key := fmt.Sprintf("%d/%s", f.Prov, id)
@@ -507,6 +536,14 @@ func genCase(t *rapid.T) Case {
 			if f.ErrPath == "reqobj_unsupported" { // a property of the provider, decided by flow 0
 				f.ErrPath = "reqobj_same"
 			}
+		}
+		if custom && rapid.IntRange(0, 3).Draw(t, "pushed") > 0 {
+			f.Pushed = genPushed(t, fc)
+			genFront(t, fc, &f.Requested, &f.Relation, &f.OmitURI)
+			if strings.HasPrefix(f.ErrPath, "reqobj") {
+				f.ErrPath = "none"
+			}
+			note(id, f.Pushed.URI)
 		}
 		if strings.HasPrefix(f.ErrPath, "store_") {
 			f.FaultKind = rapid.SampledFrom([]string{"", "deadline", "oidc", "oidc-wrapped"}).Draw(t, "faultkind")
@@ -657,9 +694,18 @@ func sameTarget(location, requested string) bool {
 	if requested != "" && location == requested {
 		return true // byte-identical (also covers strings that are not parsable URIs, e.g. a form_post action)
 	}
-	pr, err := url.Parse(requested)
-	if err != nil || requested == "" {
+	if requested == "" {
 		return false
+	}
+	pr, err := url.Parse(requested)
+	if err != nil {
+		// not a URI for Go's parser: it can only be acceptable as a plain string that matches an opted-in glob (e.g.
+		// "http://localhost:8080\@x/cb" against "http://localhost:*/cb"). The one delivery that does not parse the URI is the
+		// form_post action, which html/template percent-escapes ("\" -> "%5c"): the same string modulo escaping, and the
+		// escaped spelling matches the same glob.
+		lu, e1 := url.PathUnescape(location)
+		ru, e2 := url.PathUnescape(requested)
+		return e1 == nil && e2 == nil && lu == ru
 	}
 	pl, err := url.Parse(location)
 	if err != nil {
@@ -779,9 +825,11 @@ func (w *brokenWriter) Write(p []byte) (int, error) {
 
 // env is one long-lived provider instance with its storage.
 type env struct {
-	st  *vkit.Store
-	sut *vkit.SUT
-	ag  *vkit.Agent
+	st     *vkit.Store
+	sut    *vkit.SUT
+	ag     *vkit.Agent
+	custom *customServer // routers "custom" / "custom-bare"
+	merge  string
 }
 
 func otherClient() *vkit.ClientSpec {
@@ -789,12 +837,27 @@ func otherClient() *vkit.ClientSpec {
 		ResponseTypes: []string{"code", "id_token", "id_token token"}, RedirectURIs: []string{"https://evil.example.net/cb", "https://other.example.net/cb"}, Keys: map[string]string{"kb": "rsa3"}}
 }
 
-func newEnv(router, errStyle string, reqObj bool) *env {
+func newEnv(router, errStyle string, reqObj bool, order, merge string) *env {
 	st := vkit.NewStore([]*vkit.ClientSpec{otherClient()}, vkit.SignKeySpec{KeyName: "rsa1", Alg: "RS256", KID: "sig1"}, vkit.StorePolicy{ErrStyle: errStyle})
-	spec := vkit.DefaultProviderSpec(router)
+	base := router
+	if isCustom(router) {
+		base = "legacy"
+	}
+	spec := vkit.DefaultProviderSpec(base)
 	spec.ReqObj = reqObj
 	sut := vkit.MustBuild(spec, st)
-	return &env{st: st, sut: sut, ag: vkit.NewAgent(sut)}
+	e := &env{st: st, sut: sut}
+	if isCustom(router) {
+		if order == "" {
+			order = "after"
+		}
+		if merge == "" {
+			merge = "replace"
+		}
+		e.custom, e.merge = mountCustom(sut, router, order, merge), merge
+	}
+	e.ag = vkit.NewAgent(sut)
+	return e
 }
 
 // get sends one GET to the provider; broken: the response goes to a brokenWriter that takes accept body bytes.
@@ -842,10 +905,13 @@ func run(c Case) *vkit.Result {
 					router = "provider"
 				}
 			}
-			e = newEnv(router, c.ErrStyle, reqObj)
+			e = newEnv(router, c.ErrStyle, reqObj, c.PushOrder, c.PushMerge)
 			envs[f.Prov] = e
 			if len(flows) > 1 {
 				res.Label("seq:router:" + router)
+			}
+			if e.custom != nil {
+				res.Label("server:order:"+e.custom.order, "server:merge:"+e.custom.merge)
 			}
 		}
 		out := runFlow(res, e, f, i)
@@ -934,8 +1000,33 @@ func runFlow(res *vkit.Result, e *env, f Flow, idx int) flowOut {
 	if f.State != "" {
 		q.Set("state", f.State)
 	}
+	frontPrompt := ""
+	switch f.ErrPath {
+	case "bad_prompt":
+		frontPrompt = "none login"
+	case "prompt_none":
+		frontPrompt = "none"
+	}
+	// the request that is authorized, by the model: the front channel parameters, or - on a server that resolves
+	// request_uri - those with the deposit applied
+	eff := effective(f, frontPrompt, e.merge, e.custom != nil)
+	if f.Pushed != nil {
+		ref := requestURIOf(idx)
+		q.Set("request_uri", ref)
+		if e.custom != nil {
+			switch f.Pushed.Kind {
+			case "":
+				e.custom.table[ref] = deposit{clientID: cl.ID, p: *f.Pushed}
+			case "foreign":
+				e.custom.table[ref] = deposit{clientID: other.ID, p: *f.Pushed}
+			}
+		}
+	}
 	rawExtra := ""
-	candidates := []string{f.Requested}
+	candidates := []string{eff.URI}
+	if eff.dead {
+		candidates = nil // nothing was requested: no redirect URI can be the target of anything
+	}
 	objectInPlay := false
 	switch f.ErrPath {
 	case "bad_form":
@@ -996,18 +1087,21 @@ func runFlow(res *vkit.Result, e *env, f Flow, idx int) flowOut {
 	}
 
 	// the URI the stored request carries is what the callback will use: the effective requested URI
-	effective := f.Requested
+	stored := eff.URI
 	if ar, ok := st.AuthReqSnapshot(reqID); ok && toLogin {
-		effective = ar.RedirectURI
-		if !contains(candidates, effective) {
-			res.Fail("C03:stored-uri-not-requested", "flow %d: auth request stored with redirect_uri %q which was neither in the query nor in the request object", idx, effective)
+		stored = ar.RedirectURI
+		if !contains(candidates, stored) {
+			res.Fail("C03:stored-uri-not-requested", "flow %d: auth request stored with redirect_uri %q which is not the redirect_uri of the request being authorized %q (front channel %q, request object %q, deposit %+v)", idx, stored, candidates, f.Requested, f.ObjectURI, f.Pushed)
 		}
 	}
 
 	clientKnown := f.ErrPath != "unknown_client" && f.ErrPath != "no_client" && !f.Unregistered
-	verdictQ, reasonQ := allowed(&cl, f.Requested, f.ResponseType)
-	if f.OmitURI {
+	verdictQ, reasonQ := allowed(&cl, eff.URI, eff.ResponseType)
+	if f.OmitURI && !eff.pushed {
 		verdictQ, reasonQ = -1, "omitted"
+	}
+	if eff.dead {
+		verdictQ, reasonQ = -1, "request_uri-unresolved"
 	}
 	if !clientKnown {
 		verdictQ, reasonQ = -1, "no-client"
@@ -1022,13 +1116,21 @@ func runFlow(res *vkit.Result, e *env, f Flow, idx int) flowOut {
 			if !sameTarget(target, cand) {
 				continue
 			}
-			cv, cwhy := allowed(&cl, cand, f.ResponseType)
+			cv, cwhy := allowed(&cl, cand, eff.ResponseType)
+			if _, perr := url.Parse(cand); perr != nil && target != cand {
+				// a string that is no URI, delivered in another (escaped) spelling: what the user agent is handed must
+				// itself be acceptable for the client
+				res.Label("delivered-in-escaped-spelling")
+				if tv, twhy := allowed(&cl, target, eff.ResponseType); tv < cv {
+					cv, cwhy = tv, twhy+"(escaped-spelling)"
+				}
+			}
 			if cv > v {
 				matched, v, why = cand, cv, cwhy
 			}
 		}
 		if v == -2 {
-			tv, twhy := allowed(&cl, target, f.ResponseType)
+			tv, twhy := allowed(&cl, target, eff.ResponseType)
 			if !clientKnown {
 				tv, twhy = -1, "no-client"
 			}
@@ -1088,35 +1190,36 @@ func runFlow(res *vkit.Result, e *env, f Flow, idx int) flowOut {
 	// refused requests are answered directly, never with a redirect (not even to the login UI)
 	allRefused := verdictQ < 0
 	if objectInPlay && f.ObjectURI != "" && clientKnown {
-		vo, _ := allowed(&cl, f.ObjectURI, f.ResponseType)
+		vo, _ := allowed(&cl, f.ObjectURI, eff.ResponseType)
 		allRefused = allRefused && vo < 0
 	}
 	if allRefused {
 		res.Label("must-refuse", "refuse:"+reasonQ)
 		if authResp.IsRedirect() {
-			res.Fail("C03:refused-but-redirected:"+reasonQ, "flow %d: authorize answered %d to %q although redirect_uri %q must be refused (%s) under the registration in force %+v (unregistered=%v)", idx, authResp.Status, authResp.Location(), f.Requested, reasonQ, cl, f.Unregistered)
+			res.Fail("C03:refused-but-redirected:"+reasonQ, "flow %d: authorize answered %d to %q although the redirect_uri %q of the request being authorized (front channel %q, deposit %+v) must be refused (%s) under the registration in force %+v (unregistered=%v)", idx, authResp.Status, authResp.Location(), eff.URI, f.Requested, f.Pushed, reasonQ, cl, f.Unregistered)
 		}
 	}
 
 	// completeness: an acceptable, fault-free code/implicit request reaches the redirect URI
-	_, perr := url.Parse(f.Requested)
+	_, perr := url.Parse(eff.URI)
 	if verdictQ > 0 && perr != nil {
 		// a string that matches a registered glob but is not a URI at all (e.g. "http://localhost:8080.evil/cb": invalid
 		// port) cannot be redirected to by anybody; refusing it is no loss of completeness
 		res.Label("grey:model-allowed-but-not-a-uri")
 		res.Grey = true
 	}
-	if verdictQ > 0 && perr == nil && f.ErrPath == "none" && contains(cl.ResponseTypes, f.ResponseType) && f.ResponseType != "" {
+	if verdictQ > 0 && perr == nil && f.ErrPath == "none" && contains(cl.ResponseTypes, eff.ResponseType) && eff.ResponseType != "" &&
+		contains(strings.Fields(eff.Scope), "openid") && eff.Prompt == "" {
 		res.Label("must-deliver", "allow:"+reasonQ)
 		ok := false
 		if final != nil && final.Panic == nil {
-			if final.IsRedirect() && sameTarget(final.Location(), f.Requested) {
+			if final.IsRedirect() && sameTarget(final.Location(), eff.URI) {
 				p := vkit.DeliveredParams(final.Location())
 				ok = p.Get("code") != "" || p.Get("id_token") != ""
-			} else if final.Status == 200 && f.ResponseMode == "form_post" {
+			} else if final.Status == 200 && eff.ResponseMode == "form_post" {
 				targets, forms := pageTargets(final.Body)
 				for _, a := range targets {
-					ok = ok || (forms > 0 && (sameTarget(a, f.Requested) || a == "#ZgotmplZ"))
+					ok = ok || (forms > 0 && (sameTarget(a, eff.URI) || a == "#ZgotmplZ"))
 				}
 				if brokenCB {
 					ok = true // the page was cut off by the writer: what did not arrive is not judged
@@ -1129,7 +1232,7 @@ func runFlow(res *vkit.Result, e *env, f Flow, idx int) flowOut {
 			if final != nil {
 				d = final.Describe()
 			}
-			res.Fail("C03:complete:"+reasonQ, "flow %d: acceptable request (%s) did not reach the redirect URI %q: %s", idx, reasonQ, f.Requested, d)
+			res.Fail("C03:complete:"+reasonQ, "flow %d: acceptable request (%s) did not reach the redirect URI %q (front channel %q, deposit %+v): %s", idx, reasonQ, eff.URI, f.Requested, f.Pushed, d)
 		}
 	} else if verdictQ == 0 {
 		res.Grey = true
@@ -1155,17 +1258,36 @@ func runFlow(res *vkit.Result, e *env, f Flow, idx int) flowOut {
 		}
 	}
 	res.Label("path:"+path, "rel:"+f.Relation, "err:"+f.ErrPath, "router:"+sut.Spec.Router)
+	pushKey := ""
+	if f.Pushed != nil && e.custom != nil {
+		// the class the dimension is about: what the front channel alone would get vs. what the authorized request gets
+		vf, _ := allowed(&cl, f.Requested, f.ResponseType)
+		if f.OmitURI || !clientKnown {
+			vf = -1
+		}
+		kind := f.Pushed.Kind
+		if kind == "" {
+			kind = "own"
+		}
+		pushKey = fmt.Sprintf("|push:%s:%s:%s:%s:front=%d", kind, e.custom.order, e.custom.merge, f.Pushed.Relation, vf)
+		res.Label("push:kind:"+kind, "push:rel:"+f.Pushed.Relation, fmt.Sprintf("push:front=%d,authorized=%d:%s", vf, verdictQ, path))
+		if eff.pushed && eff.ResponseType != f.ResponseType {
+			res.Label("push:response_type-differs")
+		}
+	} else if e.custom != nil {
+		res.Label("push:none(copy-only)")
+	}
 	regKinds := []string{}
 	for _, r := range cl.RedirectURIs {
 		regKinds = append(regKinds, strings.SplitN(r, ":", 2)[0])
 	}
 	sort.Strings(regKinds)
 	return flowOut{
-		key:        fmt.Sprintf("%s|%s|dev=%v|globs=%v|%v|%s|%s|%s|%s|%s|%s|v=%d", sut.Spec.Router, cl.AppType, cl.DevMode, cl.UseGlobs, regKinds, f.Relation, f.ResponseType, f.ResponseMode, f.ErrPath, path, reasonQ, verdictQ),
+		key:        fmt.Sprintf("%s|%s|dev=%v|globs=%v|%v|%s|%s|%s|%s|%s|%s|v=%d", sut.Spec.Router, cl.AppType, cl.DevMode, cl.UseGlobs, regKinds, f.Relation, f.ResponseType, f.ResponseMode, f.ErrPath, path, reasonQ, verdictQ) + pushKey,
 		path:       path,
 		verdict:    verdictQ,
-		nonTrivial: !contains(cl.RedirectURIs, f.Requested) || (f.ErrPath != "none" && toLogin),
-		info:       map[string]any{"verdict": verdictQ, "reason": reasonQ, "path": path, "effective": effective},
+		nonTrivial: !contains(cl.RedirectURIs, eff.URI) || (f.ErrPath != "none" && toLogin) || pushKey != "",
+		info:       map[string]any{"verdict": verdictQ, "reason": reasonQ, "path": path, "effective": stored},
 	}
 }
 
@@ -1204,7 +1326,8 @@ var prop = vkit.Prop[Case]{
 	Rule: "cases = client registration (application type x dev mode x auth method x response types x 1-4 registered URIs from a grammar x optional opted-in or dormant globs) x requested redirect_uri (registered or one of 30 near-miss relations) x response_type x response_mode x error path (24 kinds incl. pre-validation errors, request objects, storage faults, missing login) x router, driven authorize->login->callback; " +
 		"half of the cases are SEQUENCES of 2-4 such flows on one long-lived provider instance (optionally a second instance, either router, with its own storage that knows the same client ids with other URIs), for the same or another client, with a generated registration change between flows (URI removed / added / replaced, all replaced, glob opt-in switched, glob changed, dev mode switched, application type / response types changed, client unregistered and re-registered; the storage hands out a fresh record), " +
 		"later flows preferring URIs from the history of that client id (held by an earlier or the other provider's registration, requested before, registered by the other client) and the response type / mode of the previous flow, any response optionally written to a ResponseWriter that breaks after k body bytes; every response of every flow is judged against the registration in force for that flow on that provider, form_post pages by EVERY form / link / refresh in the page; " +
-		"non-trivial = requested URI is not a registered string, or an error path taken after URI validation, or a sequence; distinct = per flow (router, client class, registered schemes, relation, response type/mode, error path, path taken, model reason) + (provider, client id, change)",
+		"router = op.Provider | LegacyServer via RegisterLegacyServer | a CUSTOM op.Server (struct embedding *op.LegacyServer whose VerifyAuthRequest returns a NEW request object: a model of pushed authorization requests / request_uri, deposit applied after or before the embedded verification, replacing or overlaying the front channel parameters) registered via RegisterLegacyServer or via RegisterServer with the callback mounted by hand; on custom servers 3/4 of the flows present a request_uri whose generated deposit (redirect_uri registered / near-miss / absent, response_type, response_mode, state, scope, prompt; deposited by this client, by another client, or not at all) stands behind a front channel that carries the generated, a registered or no redirect_uri; the oracle judges the request that is AUTHORIZED (the one VerifyAuthRequest returned): every Location / form target must be acceptable for its redirect_uri and response_type, a must-refuse one is answered directly, an acceptable one is delivered, the stored request carries exactly that URI; request= and request_uri are not combined (OIDC Core 6); " +
+		"non-trivial = requested URI is not a registered string, or an error path taken after URI validation, or a sequence, or a deposit in play; distinct = per flow (router, client class, registered schemes, relation, response type/mode, error path, path taken, model reason) + (provider, client id, change) + (deposit kind, order, merge, deposit URI relation, verdict of the front channel alone)",
 	Gen: genCase,
 	Run: run,
 }
